@@ -384,7 +384,22 @@ static void parseSanitizer(ChildOutcome& co)
     size_t q = p + strlen("runtime error: ");
     size_t e = t.find('\n', q);
     std::string msg = t.substr(q, e == std::string::npos ? std::string::npos : e - q);
-    // keep the message class without numbers
+    // keep the message class without numbers and addresses
+    {
+      std::string m2;
+      for (size_t i = 0; i < msg.size(); i++)
+      {
+        if (msg[i] == '0' && i + 1 < msg.size() && msg[i + 1] == 'x')
+        {
+          size_t j = i + 2;
+          while (j < msg.size() && isxdigit((unsigned char)msg[j])) j++;
+          m2 += "ADDR";
+          i = j - 1;
+        }
+        else m2 += msg[i];
+      }
+      msg = m2;
+    }
     std::string k;
     for (char c : msg)
     {
